@@ -1,22 +1,16 @@
 import Neigh.Props
 open Neigh
 #print axioms C17_bounded
-#print axioms C17_distinct_values
-#print axioms C17_distinct_partial
-#print axioms C17_distinct_counterexample
-#print axioms C17_not_self_value
-#print axioms C17_not_self_partial
-#print axioms C17_not_self_counterexample
+#print axioms C17_distinct
+#print axioms C17_not_self
 #print axioms C17_known_only
 #print axioms C17_reachable_only
 #print axioms C17_best
-#print axioms C17_fanout_exact
-#print axioms C17_fanout_partial
-#print axioms C17_fanout_counterexample
+#print axioms C17_fanout
 #print axioms C17_retained
 #print axioms C17_incentive
-#print axioms C17_retained_inv_partial
-#print axioms C17_retained_inv_counterexample
+#print axioms C17_retained_inv
+#print axioms C17_init
 #print axioms C17_networkId
 #print axioms C17_rounds
 #print axioms C17_rounds_invariant
